@@ -85,6 +85,14 @@ def compile_expression(
     # Create mapping from variable name to array index
     var_indices = {var.name: i for i, var in enumerate(variables)}
 
+    # Parameters hash and compare by name, so a bare Parameter must not go
+    # through the cache: another Parameter of the same name would receive a
+    # callable bound to the first object.
+    from optyx.core.parameters import Parameter
+
+    if isinstance(expr, Parameter):
+        return _build_evaluator(expr, var_indices)
+
     # Generate and cache the compiled function
     return _compile_cached(
         expr, tuple(var.name for var in variables), tuple(var_indices.items())
